@@ -36,7 +36,7 @@ pub struct Req {
     /// "actor" (message straight to the keyspace actor) or "service" (ConsistencyService handler)
     pub route: String,
     pub ks: String,
-    /// "set" | "multi_set" | "del" | "multi_del" | "purge" | "batch"
+    /// "set" | "multi_set" | "del" | "multi_del" | "purge" | "batch" | "idle_hour"
     pub kind: String,
     pub source: usize,
     pub items: Vec<Item>,
@@ -116,6 +116,11 @@ pub async fn issue(node: &Node, tag: &str, r: &Req) -> Result<bool, String> {
             let mb = node.group.get_or_create_keyspace(&r.ks).await;
             let docs = r.items.iter().map(|it| DocumentMetadata::new(it.id, it.ts())).collect();
             Ok(mb.send(ecv::MultiDel { source: r.source, docs, _marker: PhantomData }).await.is_ok())
+        },
+        (_, "idle_hour") => {
+            // an hour goes by: the group's periodic purge pass runs on every keyspace by itself
+            tokio::time::sleep(std::time::Duration::from_secs(3_660)).await;
+            Ok(true)
         },
         (_, "purge") => {
             let mb = node.group.get_or_create_keyspace(&r.ks).await;
@@ -249,12 +254,13 @@ pub fn gen_req(rng: &mut impl Rng, cfg: &GenCfg, now_off: &mut i64) -> Req {
         14..=16 => "multi_del",
         17 if route == "service" => "batch",
         18 if cfg.allow_purge => "purge",
+        19 if cfg.allow_purge => "idle_hour",
         _ => "set",
     };
     let source = if route == "actor" && rng.gen_bool(0.4) { 1 } else { 0 };
     let n = match kind {
         "set" | "del" => 1,
-        "purge" => 0,
+        "purge" | "idle_hour" => 0,
         _ => rng.gen_range(1..=5),
     };
     let mut items: Vec<Item> = Vec::new();
@@ -277,7 +283,7 @@ pub fn gen_req(rng: &mut impl Rng, cfg: &GenCfg, now_off: &mut i64) -> Req {
         }
         items.push(it);
     }
-    if items.is_empty() && kind != "purge" {
+    if items.is_empty() && kind != "purge" && kind != "idle_hour" {
         items.push(gen_item(rng, cfg, now_off));
     }
     let mut del_items = Vec::new();
